@@ -318,6 +318,26 @@ theorem TrsoAux.sh_sumSimplify_out (σ₀ : Val) {t t' : Expr} {r rs : List Var}
       rw [List.mem_append, not_or] at hns; exact hns
     have := (h2 n).2 ⟨hn, hns'.1⟩
     exact ⟨c₀, s₀, h1, h2, n, this.1, this.2, by rw [hrs]; exact hns'.2⟩
+  have hgen : TrsoAux.sh_Out card leaf σ₀ (.sum t r) (.sum t' rs) := by
+      refine ⟨(TrsoAux.sh_sum_iff σ₀ _ _).2 ⟨ot.shape, ?_⟩, trivial, ?_⟩
+      · intro c' s' hc
+        simp only [chain, Option.map_eq_some_iff] at hc
+        obtain ⟨p, hp, hpe⟩ := hc
+        simp only [Prod.mk.injEq] at hpe
+        obtain ⟨rfl, rfl⟩ := hpe
+        obtain ⟨_, _, _, _, m, hm, hm1, hm2⟩ := key p.1 p.2 hp
+        exact ⟨m, hm, by rw [List.mem_append, not_or]; exact ⟨hm1, hm2⟩⟩
+      · intro c' s' hc
+        simp only [chain, Option.map_eq_some_iff] at hc
+        obtain ⟨p, hp, hpe⟩ := hc
+        simp only [Prod.mk.injEq] at hpe
+        obtain ⟨rfl, rfl⟩ := hpe
+        obtain ⟨c₀, s₀, h1, h2, _⟩ := key p.1 p.2 hp
+        refine ⟨c₀, s₀ ++ r.map (·.name), by simp [chain, h1], ?_⟩
+        intro m
+        have := h2 m
+        rw [List.mem_append, not_or, List.mem_append, not_or, hrs m]
+        tauto
   unfold sumSimplify
   split
   · rename_i pop c
@@ -328,6 +348,8 @@ theorem TrsoAux.sh_sumSimplify_out (σ₀ : Val) {t t' : Expr} {r rs : List Var}
     have h2' : ∀ m, m ∈ c.map (·.name) ↔ (m ∈ c₀.map (·.name) ∧ m ∉ s₀) := by
       intro m; have := h2 m; simpa using this
     simp only []
+    split
+    · exact hgen
     split
     · rename_i hse
       simp only [seteq', Bool.and_eq_true, TrsoAux.subset'_iff] at hse
@@ -383,25 +405,7 @@ theorem TrsoAux.sh_sumSimplify_out (σ₀ : Val) {t t' : Expr} {r rs : List Var}
             · rintro ⟨⟨⟨a1, a2⟩, a3⟩, _⟩; exact ⟨a1, a2, a3⟩
             · rintro ⟨a1, a2, a3⟩
               exact ⟨⟨⟨a1, a2⟩, a3⟩, fun hm => a3 ((hrs m).1 (hextra m hm))⟩
-  · refine ⟨(TrsoAux.sh_sum_iff σ₀ _ _).2 ⟨ot.shape, ?_⟩, trivial, ?_⟩
-    · intro c' s' hc
-      simp only [chain, Option.map_eq_some_iff] at hc
-      obtain ⟨p, hp, hpe⟩ := hc
-      simp only [Prod.mk.injEq] at hpe
-      obtain ⟨rfl, rfl⟩ := hpe
-      obtain ⟨_, _, _, _, m, hm, hm1, hm2⟩ := key p.1 p.2 hp
-      exact ⟨m, hm, by rw [List.mem_append, not_or]; exact ⟨hm1, hm2⟩⟩
-    · intro c' s' hc
-      simp only [chain, Option.map_eq_some_iff] at hc
-      obtain ⟨p, hp, hpe⟩ := hc
-      simp only [Prod.mk.injEq] at hpe
-      obtain ⟨rfl, rfl⟩ := hpe
-      obtain ⟨c₀, s₀, h1, h2, _⟩ := key p.1 p.2 hp
-      refine ⟨c₀, s₀ ++ r.map (·.name), by simp [chain, h1], ?_⟩
-      intro m
-      have := h2 m
-      rw [List.mem_append, not_or, List.mem_append, not_or, hrs m]
-      tauto
+  · exact hgen
 
 theorem TrsoAux.sh_sumSafe_out (σ₀ : Val) {t t' : Expr} {r : List Var} (ct' : Clean t')
     (ot : TrsoAux.sh_Out card leaf σ₀ t t') (hs : Shape card leaf σ₀ (.sum t r)) :
